@@ -273,3 +273,18 @@ func (x *Sock) PrepSend() {
 func (x *Sock) Supports(opt string, val interface{}) bool {
 	return x.S.SetOption(opt, val) == nil
 }
+
+
+var peerOf = map[string]string{
+	"pair": "pair", "pair1": "pair1", "req": "rep", "rep": "req", "pub": "sub", "sub": "pub", "push": "pull", "pull": "push",
+	"surveyor": "respondent", "respondent": "surveyor", "bus": "bus", "star": "star",
+}
+
+// NewPeer makes a cooked socket of the pattern that k talks to.
+func (k *Kind) NewPeer() (mangos.Socket, error) {
+	n := k.Name
+	if k.Raw {
+		n = n[1:]
+	}
+	return ByName(peerOf[n]).New()
+}
